@@ -3,10 +3,40 @@
 package omniwitness
 
 import (
+	"reflect"
+	"unsafe"
+
 	"github.com/transparency-dev/witness/internal/feeder"
 	"github.com/transparency-dev/witness/internal/witness"
 )
 
 // VerifWitnessAdapter exposes the unexported adapter Main puts between the
 // witness and the feeders / bastion handler / distributor.
-func VerifWitnessAdapter(w *witness.Witness) feeder.Witness { return witnessAdapter{w: w} }
+//
+// Main is the only place that builds the adapter, so a change that gives it further fields (a cache, a
+// coalescing group) initialises them there. Built here by literal those fields would be nil and the first
+// call would panic in the harness, not in the service: every nil pointer or map field other than the
+// witness is therefore given an empty value of its type. The assembled checks (kit/asm) use the adapter
+// Main itself builds.
+func VerifWitnessAdapter(w *witness.Witness) feeder.Witness {
+	a := witnessAdapter{w: w}
+	v := reflect.ValueOf(&a).Elem()
+	for i := 0; i < v.NumField(); i++ {
+		f := v.Field(i)
+		if !f.CanAddr() {
+			continue
+		}
+		s := reflect.NewAt(f.Type(), unsafe.Pointer(f.UnsafeAddr())).Elem()
+		switch f.Kind() {
+		case reflect.Pointer:
+			if f.IsNil() {
+				s.Set(reflect.New(f.Type().Elem()))
+			}
+		case reflect.Map:
+			if f.IsNil() {
+				s.Set(reflect.MakeMap(f.Type()))
+			}
+		}
+	}
+	return a
+}
